@@ -425,14 +425,20 @@ pub fn gen_session(r: &mut Rng, cfg: &Config, o: &SessionOpts, atoms: &mut Vec<A
         }
     };
 
+    let mut visit_cost = 0u64;
     for _ in 0..ntok {
         // cost bound: a session ends once the terminal holds more than 8 M cells (~100 MB) - only
         // reachable after a resize to a very wide geometry followed by scrolling
-        if p.giant_resizes && shadow.lines().len() * cols > 8_000_000 {
+        if p.giant_resizes && (shadow.lines().len() * cols > 8_000_000 || visit_cost > 1_500_000_000) {
             break;
         }
         gs.tokens += 1;
         let (_fam, mut tok) = gen_token(r, cols, rows, p);
+        // a check that looks at every cell after every call pays characters x cells
+        visit_cost += tok.len() as u64 * (shadow.lines().len() * cols) as u64;
+        if p.giant_resizes && visit_cost > 1_500_000_000 {
+            break;
+        }
         if p.damage_pm > 0 && r.below(1000) < p.damage_pm as u64 {
             let (t, _kind) = damage(r, &tok);
             tok = t;
